@@ -89,14 +89,19 @@ Definition file_verdict (gs : list group) : nat :=
   let spec := List.concat (map (fun g => spec_stmts (g_matcher g) [] (g_stmts g)) gs) in
   if existsb is_none impl then 0 else if olist_eqb impl spec then 1 else if existsb is_none spec then 3 else 2.
 
-(* expandMacro: safe arguments only; astcopy; identifiers in expression position (not selected fields) named like a parameter
-   are replaced by the unparenthesised argument; basic literals get their strconv value; the result is converted *)
+(* expandMacro: a helper that is reached again while it is being expanded is rejected (calls are resolved by name: a helper named
+   after something it calls); safe arguments only; astcopy; identifiers in expression position (not selected fields, not names the
+   template declares, not labels) named like a parameter are replaced by the unparenthesised argument; basic literals get their
+   strconv value; the result is converted *)
 Lemma pinned_body_expandMacro : gen_body_expandMacro =
-  ["isSafe := func(arg ast.Expr) bool { switch arg := astutil.Unparen(arg).(type) { case *ast.BasicLit, *ast.Ident: return true case *ast.IndexExpr: mapIdent, ok := astutil.Unparen(arg.X).(*ast.Ident) if !ok { return false } if mapIdent.Name != conv.group.MatcherName { return false } key, ok := astutil.Unparen(arg.Index).(*ast.BasicLit) if !ok || key.Kind != token.STRING { return false } return true default: return false } }";
+  ["if macro.expanding { panic(conv.errorf(call, ""%s local func can't be used in its own definition"", macro.name)) }";
+   "macro.expanding = true";
+   "defer func() { macro.expanding = false }()";
+   "isSafe := func(arg ast.Expr) bool { switch arg := astutil.Unparen(arg).(type) { case *ast.BasicLit, *ast.Ident: return true case *ast.IndexExpr: mapIdent, ok := astutil.Unparen(arg.X).(*ast.Ident) if !ok { return false } if mapIdent.Name != conv.group.MatcherName { return false } key, ok := astutil.Unparen(arg.Index).(*ast.BasicLit) if !ok || key.Kind != token.STRING { return false } return true default: return false } }";
    "args := map[string]ast.Expr{}";
    "for i, arg := range call.Args { paramName := macro.params[i] if !isSafe(arg) { panic(conv.errorf(arg, ""unsupported/too complex %s argument"", paramName)) } args[paramName] = astutil.Unparen(arg) }";
    "body := astcopy.Expr(macro.template)";
-   "expanded := astutil.Apply(body, nil, func(cur *astutil.Cursor) bool { if ident, ok := cur.Node().(*ast.Ident); ok { if sel, ok := cur.Parent().(*ast.SelectorExpr); ok && sel.Sel == ident { return true } arg, ok := args[ident.Name] if ok { cur.Replace(arg) return true } } if lit, ok := cur.Node().(*ast.BasicLit); ok { switch lit.Kind { case token.STRING: val, err := strconv.Unquote(lit.Value) if err == nil { conv.types.Types[lit] = types.TypeAndValue{ Type: types.Typ[types.UntypedString], Value: constant.MakeString(val), } } case token.INT: val, err := strconv.ParseInt(lit.Value, 0, 64) if err == nil { conv.types.Types[lit] = types.TypeAndValue{ Type: types.Typ[types.UntypedInt], Value: constant.MakeInt64(val), } } case token.FLOAT: val, err := strconv.ParseFloat(lit.Value, 64) if err == nil { conv.types.Types[lit] = types.TypeAndValue{ Type: types.Typ[types.UntypedFloat], Value: constant.MakeFloat64(val), } } } } return true })";
+   "expanded := astutil.Apply(body, nil, func(cur *astutil.Cursor) bool { if ident, ok := cur.Node().(*ast.Ident); ok { if sel, ok := cur.Parent().(*ast.SelectorExpr); ok && sel.Sel == ident { return true } switch cur.Name() { case ""Names"", ""Name"", ""Label"": return true } arg, ok := args[ident.Name] if ok { cur.Replace(arg) return true } } if lit, ok := cur.Node().(*ast.BasicLit); ok { switch lit.Kind { case token.STRING: val, err := strconv.Unquote(lit.Value) if err == nil { conv.types.Types[lit] = types.TypeAndValue{ Type: types.Typ[types.UntypedString], Value: constant.MakeString(val), } } case token.INT: val, err := strconv.ParseInt(lit.Value, 0, 64) if err == nil { conv.types.Types[lit] = types.TypeAndValue{ Type: types.Typ[types.UntypedInt], Value: constant.MakeInt64(val), } } case token.FLOAT: val, err := strconv.ParseFloat(lit.Value, 64) if err == nil { conv.types.Types[lit] = types.TypeAndValue{ Type: types.Typ[types.UntypedFloat], Value: constant.MakeFloat64(val), } } } } return true })";
    "return conv.convertFilterExpr(expanded.(ast.Expr))"].
 Proof. reflexivity. Qed.
 
